@@ -127,6 +127,65 @@ def extra():
     return out
 
 
+def kw_verbatim():
+    """keyword-only options reach the user function verbatim (same type, equal value), cold and on a cache hit, for both numpy adapters"""
+    import einx
+    out = []
+    values = [3, 2.5, True, "mode", None, (1, 2), np.float32(2.0), np.int64(7), -1, 0, False, 1, 0.0,
+              [1, 2], (1, [2]), {"k": [1]}, np.asarray([1, 2]), {"k": 1}]
+    x = np.arange(6.0).reshape(2, 3)
+    for adapter in ("reduce", "elementwise"):
+        got = {}
+        if adapter == "reduce":
+            def user(t, axis, *, opt=None):
+                got["opt"] = opt
+                return np.asarray(np.sum(t, axis=axis))
+            ad, call = einx.numpy.adapt_numpylike_reduce(user), (lambda v: ad("a [b]", x, opt=v))
+        else:
+            def user(t, u, *, opt=None):  # noqa
+                got["opt"] = opt
+                return np.asarray(t + u)
+            ad, call = einx.numpy.adapt_numpylike_elementwise(user), (lambda v: ad("a b, a b", x, x, opt=v))
+        for v in values + values:  # second round: cache hits
+            got.clear()
+            o = harness.outcome(lambda: call(v))
+            d = {"op": f"adapted {adapter}", "description": "a [b]" if adapter == "reduce" else "a b, a b", "shapes": [[2, 3]], "kwargs": {"opt": repr(v)}, "adapter": adapter}
+            if o[0] != "ok":
+                out.append(("exception", d, f"{o[1:]}"))
+                continue
+            r = got.get("opt", "<not called>")
+            same = type(r) is type(v) and (np.array_equal(r, v) if isinstance(v, np.ndarray) else r == v)
+            if same:
+                out.append(("ok", d, None))
+            else:
+                mutable = any(isinstance(q, (list, np.ndarray, np.generic)) for q in _leaves(v))
+                out.append(("kwarg-frozen" if mutable and _thaw_equal(r, v) else "kwarg-not-verbatim", d, f"keyword-only option opt={v!r} ({type(v).__name__}) arrived as {r!r} ({type(r).__name__})"))
+    return out
+
+
+def _leaves(v):
+    yield v
+    if isinstance(v, (list, tuple)):
+        for q in v:
+            yield from _leaves(q)
+    elif isinstance(v, dict):
+        for q in v.values():
+            yield from _leaves(q)
+
+
+def _thaw_equal(r, v):
+    """r equals v up to list/ndarray -> tuple and numpy scalar -> Python scalar conversion (the recorded finding F-kwargs-frozen), nothing else"""
+    if isinstance(v, np.ndarray):
+        v = v.tolist()
+    if isinstance(v, np.generic):
+        return type(r) is type(v.item()) and r == v.item()
+    if isinstance(v, (list, tuple)):
+        return isinstance(r, tuple) and len(r) == len(v) and all(_thaw_equal(a, b) for a, b in zip(r, v))
+    if isinstance(v, dict):
+        return isinstance(r, dict) and r.keys() == v.keys() and all(_thaw_equal(r[k], v[k]) for k in v)
+    return type(r) is type(v) and r == v
+
+
 def iskwarg_complete():
     """C15.P.iskwarg: _make_iskwarg over the finite domain of parameter kinds, incl. functions sharing a code object through functools.wraps"""
     import inspect
@@ -163,10 +222,13 @@ def run(tier, seed):
     n, fails = iskwarg_complete()
     chk.add_rule("C15.P.iskwarg", not fails, [f"{n} (function, name) pairs incl. functools.wraps-decorated functions sharing one code object"], fails[:3])
     m = 8 if tier == "quick" else 400
-    res = [x for r in harness.pmap(_work, [(seed, i) for i in range(m)]) for x in r] + extra()
+    res = [x for r in harness.pmap(_work, [(seed, i) for i in range(m)]) for x in r] + extra() + kw_verbatim()
     fails = [r for r in res if r[0] != "ok"]
     seen = set()
     for st, d, detail in fails:
+        if st == "kwarg-frozen":
+            chk.known_finding("F-kwargs-frozen", "list / ndarray valued keyword-only options reach the adapted function as (nested) tuples (frozen for the cache key) and numpy scalars as Python scalars of equal value, e.g. opt=[1, 2] arrives as (1, 2), opt=np.float32(2) as 2.0")
+            continue
         if st in seen:
             continue
         seen.add(st)
